@@ -17,7 +17,7 @@ import h2.settings
 
 WINDOWS = (1, 5, 65535)
 FRAMES = (16384, 2**24 - 1)
-POLICIES = ("immediate", "tiny", "stream-first", "conn-first", "late")
+POLICIES = ("immediate", "tiny", "stream-first", "conn-first", "late", "after-end")
 
 
 def _lengths(w: int) -> tuple[int, ...]:
@@ -63,6 +63,10 @@ class Credit:
         elif self.mode == "conn-first":
             now = [(None, n)]
             self.pending.append((sid, n))
+        elif self.mode == "after-end":
+            # a server that returns credit only once it has the whole request (connection level only:
+            # the stream is finished by then)
+            self.at_end = getattr(self, "at_end", 0) + n
         else:
             self.pending += [(sid, n), (None, n)]
         for s, k in now:
@@ -74,6 +78,12 @@ class Credit:
             srv.conn.increment_flow_control_window(k, stream_id=sid)
         except Exception:  # stream already closed: credit no longer needed
             pass
+
+    def on_request(self, srv: H2Server, sid: int) -> None:
+        if getattr(self, "at_end", 0):
+            self._inc(srv, None, self.at_end)
+            self.at_end = 0
+        srv.respond(sid)
 
     def release(self, sock: typing.Any) -> bool:
         if not self.pending or self.srv is None:
@@ -111,18 +121,18 @@ def _mk_body(n: int, split: bool, is_async: bool) -> typing.Any:
 @harness(
     "C13", "upload",
     quick=[{"flavour": "async", "_pre": f"w == {w}"} for w in range(3)] + [{"flavour": "sync", "_pre": "pol <= 1"}],
-    thorough=[{"flavour": "async", "_pre": f"w == {w} and pol == {p}"} for w in range(3) for p in range(5)] + [{"flavour": "sync", "_pre": "pol <= 1"}],
+    thorough=[{"flavour": "async", "_pre": f"w == {w} and pol == {p}"} for w in range(3) for p in range(6)] + [{"flavour": "sync", "_pre": "pol <= 1"}],
     example=dict(w=1, f=0, ln=5, pol=4, split=True, early=False, sc=1),
-    require=("blocked-on-window", "complete", "settings-changed-during-the-wait"),
+    require=("blocked-on-window", "complete", "settings-changed-during-the-wait", "body-ends-exactly-at-the-window"),
     timeout={"quick": 300, "thorough": 900},
-    symbolic="server INITIAL_WINDOW_SIZE w in {1,5,65535}; MAX_FRAME_SIZE in {16384, 2^24-1}; body length in {0,1,w-1,w,w+1,2w+3}; WINDOW_UPDATE schedule in {immediate, tiny increments, stream-first, connection-first, late}; body as bytes or a 3-chunk iterator; whether the server sends its response head before the upload has finished; whether, while the client waits for credit, the server lowers MAX_FRAME_SIZE or changes INITIAL_WINDOW_SIZE",
+    symbolic="server INITIAL_WINDOW_SIZE w in {1,5,65535}; MAX_FRAME_SIZE in {16384, 2^24-1}; body length in {0,1,w-1,w,w+1,2w+3}; WINDOW_UPDATE schedule in {immediate, tiny increments, stream-first, connection-first, late, only after the request has ended}; body as bytes or a 3-chunk iterator; whether the server sends its response head before the upload has finished; whether, while the client waits for credit, the server lowers MAX_FRAME_SIZE or changes INITIAL_WINDOW_SIZE",
     bounds="one upload per run (131,073 bytes at most, which also exhausts the 65,535-byte connection window); late credit is granted one WINDOW_UPDATE at a time whenever the client is blocked",
     outside="window sizes other than {1,5,65535}; more than one SETTINGS change per upload",
     stubs=("strict h2 library in server role (raises FlowControlError / FrameTooLargeError on violations)",),
 )
 def upload(w: int, f: int, ln: int, pol: int, split: bool, early: bool, sc: int) -> None:
     """
-    pre: 0 <= w <= 2 and 0 <= f <= 1 and 0 <= ln <= 5 and 0 <= pol <= 4 and 0 <= sc <= 2
+    pre: 0 <= w <= 2 and 0 <= f <= 1 and 0 <= ln <= 5 and 0 <= pol <= 5 and 0 <= sc <= 2
     post: _
     """
     is_async = shard("flavour", "async") == "async"
@@ -133,8 +143,10 @@ def upload(w: int, f: int, ln: int, pol: int, split: bool, early: bool, sc: int)
     if not is_async and mode not in ("immediate", "tiny"):
         return  # the sync flavour has no second party to grant late credit
     scc = ladder(sc, 0, 2)
-    if scc and mode in ("immediate", "tiny"):
+    if scc and mode in ("immediate", "tiny", "after-end"):
         return  # the change rides on the first *late* credit
+    if mode == "after-end" and n > min(win, 65535):
+        return  # such a server can only ever be sent what fits the initial windows
     with concrete(win, frame, n, mode, sp, ea, scc):
         _upload(is_async, win, frame, n, mode, sp, ea, scc)
 
@@ -154,6 +166,8 @@ def _upload(is_async: bool, win: int, frame: int, n: int, mode: str, split: bool
                        extensions={"timeout": {"pool": 0, "read": 50, "write": 50, "connect": 50}})
     P.note(window=win, frame=frame, length=n, policy=mode, split=split, early=early, outcome=o.kind())
     sig = f"flow:up:w{win}:{mode}" + (":early-response" if early else "")
+    if mode == "after-end" and n == min(win, 65535):
+        P.cover("body-ends-exactly-at-the-window")
     if n > win or n > 65535:
         P.cover("blocked-on-window")
     if getattr(credit, "changed", False):
